@@ -151,6 +151,7 @@ RULE_CLAUSES = {
     'ITERINVAL': 'no container is restructured inside a loop that iterates it, except by the idioms the standard keeps valid (ITERINVAL)',
     'REINDEXALL': 'ReindexStates registers every final and start state of the source in the destination on every path through the copying loop (REINDEXALL)',
     'BACKTRACK': 'the per-branch state of a recursive descent is passed by value or explicitly put back after the last recursive call (BACKTRACK)',
+    'CONGRMATCH': 'a congruence rule is tested for containment in the very closure it is then added to (CONGRMATCH)',
     'SIBLING': 'sibling functors hold and initialise the same caches and agree on the shape of their shared calls (SIBLING)',
     'FORWARD': 'facade methods forward every argument, in order, to the same-named core method (FORWARD)',
     'TUPLEPOS': 'position-wise tuple handling never reorders, deduplicates or drops positions (TUPLEPOS)',
